@@ -4,6 +4,7 @@ import importlib
 import multiprocessing as mp
 import os
 import sys
+import threading
 import time
 import traceback
 
@@ -43,6 +44,10 @@ class Pool:
         self.workers = max(1, min(workers, ncpu()))
         self.mode = mode or os.environ.get("VERIF_ENV_READY", "jit")
         self._pool = None
+        self._lock = threading.Lock()
+        # True: even a single item goes to a worker process (needed when several threads of the parent share the pool:
+        # library code must then never run inside the parent, where stdout redirection is process-global)
+        self.always_submit = False
 
     def __enter__(self):
         return self
@@ -64,7 +69,7 @@ class Pool:
         payloads = list(payloads)
         items = [(mod, fn, p) for p in payloads]
         out = []
-        if self.workers <= 1 or len(items) <= 1:
+        if self.workers <= 1 or (len(items) <= 1 and not self.always_submit):
             for it in items:
                 out.append(_call(it))
                 if deadline and time.time() > deadline:
@@ -72,13 +77,14 @@ class Pool:
         else:
             import concurrent.futures as cf
             from concurrent.futures.process import BrokenProcessPool
-            if self._pool is None:
-                from mc import env
-                # ProcessPoolExecutor: a worker that dies (killed, segfault in compiled code) breaks the pool loudly
-                # instead of leaving its task pending for ever
-                self._pool = cf.ProcessPoolExecutor(self.workers, mp_context=mp.get_context("spawn"),
-                                                    initializer=_init, initargs=(env.VERIF, self.mode))
-            res = [self._pool.submit(_call, it) for it in items]
+            with self._lock:
+                if self._pool is None:
+                    from mc import env
+                    # ProcessPoolExecutor: a worker that dies (killed, segfault in compiled code) breaks the pool loudly
+                    # instead of leaving its task pending for ever
+                    self._pool = cf.ProcessPoolExecutor(self.workers, mp_context=mp.get_context("spawn"),
+                                                        initializer=_init, initargs=(env.VERIF, self.mode))
+                res = [self._pool.submit(_call, it) for it in items]
             for r in res:
                 while True:
                     try:
